@@ -399,6 +399,46 @@ def punct_filtered(func, x, at, sets):
     return None
 
 
+def punct_verdict(prog, func, x, at, sets):
+    """(True, why) the node is known to be a token of the inventory; (False, why) it demonstrably is not restricted:
+    it ranges over all tokens / nodes and no condition on the way looks at its word; (None, why) otherwise."""
+    why = punct_filtered(func, x, at, sets)
+    if why is not None:
+        return True, why
+    if not isinstance(x, ast.Name):
+        return None, 'the moved node is not a simple name'
+    cfg = func.cfg
+    # any condition on the way that looks at the word of x, or hands x to a predicate this rule cannot look into
+    for a in cfg.assumes_at(at):
+        txt = unparse(a.ast)
+        names = set(n.id for n in ast.walk(a.ast) if isinstance(n, ast.Name))
+        if x.id in names and ("data['word']" in txt or any(isinstance(c, ast.Call) and not prog.pure_call(c, func)
+                                                          for c in ast.walk(a.ast))):
+            return None, 'the condition `%s` restricts the node in a way this rule does not evaluate' % txt[:60]
+        if any(isinstance(c, ast.Call) and isinstance(c.func, ast.Name) and c.func.id in func.locals for c in ast.walk(a.ast)):
+            return None, 'a local predicate `%s` guards the move' % txt[:60]
+    d = single_def(func, x.id, at)
+    if d and d[0] != 'param' and isinstance(d[1], tuple) and d[1][0] == 'iter':
+        it = d[1][1]
+        src = it
+        if isinstance(it, ast.Name):
+            defs = [v for (_, v) in name_defs(func, it.id) if isinstance(v, ast.AST)]
+            if len(defs) == 1:
+                src = defs[0]
+        if isinstance(src, ast.Call) and prog.callee(src, func) in (('trees', 'terminals'), ('trees', 'preorder'),
+                                                                   ('trees', 'postorder'), ('trees', 'children'),
+                                                                   ('trees', 'unordered_terminals')):
+            return False, 'the moved node runs over every element of `%s` and nothing on the way looks at its word' % unparse(src)
+        if isinstance(src, ast.ListComp) and len(src.generators) == 1 and not src.generators[0].ifs:
+            return False, 'the moved node comes from the unfiltered list `%s`' % unparse(src)[:60]
+        if isinstance(src, ast.ListComp) and len(src.generators) == 1:
+            conds = ' and '.join(unparse(c) for c in src.generators[0].ifs)
+            if "data['word']" not in conds and not any(isinstance(c, ast.Call) and not prog.pure_call(c, func)
+                                                       for i_ in src.generators[0].ifs for c in ast.walk(i_)):
+                return False, 'the list the moved node comes from is filtered by `%s`, which does not look at the word' % conds[:60]
+    return None, 'origin of the moved node not recognised'
+
+
 def _position(target, name):
     if isinstance(target, ast.Name):
         return () if target.id == name else None
@@ -516,6 +556,12 @@ def r_keep(prog, tier):
                     txt = unparse(a.ast)
                     if 'children' in txt and set(a.loops) >= set(cfg.nodes[d.node].loops):
                         mention.append(txt)
+                opaque_guard = [unparse(a.ast) for a in cfg.assumes_at(d.node)
+                                if any(isinstance(c_, ast.Call) and (
+                                    (isinstance(c_.func, ast.Name) and c_.func.id in f.locals) or
+                                    (prog.callee(c_, f) is not None and not prog.pure_call(c_, f))) for c_ in ast.walk(a.ast))]
+                if opaque_guard and not mention:
+                    mention = opaque_guard
                 if mention:
                     verdict = None
                     detail = 'a condition on the children of the parent guards the move (`%s`) but not in a form ' \
@@ -1024,10 +1070,9 @@ def r_frame(prog, tier):
                 continue        # inlined helper: the detach of the same call already stands for the move
             if e.kind not in ('DET', 'ATT'):
                 continue
-            why = punct_filtered(f, e.x, e.node, sets)
+            vd, why = punct_verdict(prog, f, e.x, e.node, sets)
             obs.append(Ob('R-FRAME/MOVED', f.fq, 'only tokens whose word is in trees.%s are moved (`%s`)'
-                          % ('/'.join(sets), unparse(e.ast)), why is not None,
-                          why or 'the moved node is not restricted to that inventory on every path',
+                          % ('/'.join(sets), unparse(e.ast)), vd, why,
                           construct='moved:' + unparse(e.ast), line=f.cfg.nodes[e.node].lineno))
     f = prog.func('transform', 'root_attach')
     for e in link_events(prog, f):
@@ -1035,6 +1080,11 @@ def r_frame(prog, tier):
             d = single_def(f, e.x.id, e.node)
             ok = bool(d and d[0] != 'param' and isinstance(d[1], tuple) and d[1][0] == 'iter'
                       and unparse(d[1][1]) == 'trees.children(%s)' % f.params[0])
+            if not ok:
+                ok = None
+                if d and d[0] != 'param' and isinstance(d[1], tuple) and d[1][0] == 'iter' and isinstance(d[1][1], ast.Call) \
+                        and prog.callee(d[1][1], f) in (('trees', 'preorder'), ('trees', 'postorder'), ('trees', 'terminals')):
+                    ok = False      # every node / token of the tree is a candidate, not only the root's children
             obs.append(Ob('R-FRAME/MOVED', f.fq, 'only children of the root are moved (`%s`)' % unparse(e.ast),
                           ok, 'loop variable over trees.children(%s)' % f.params[0] if ok else
                           'the moved node is not a loop variable over the ordered root children',
@@ -1155,6 +1205,13 @@ def _stale_parent_read(prog, f, e, at, loops, depth=0):
                         return r
             elif isinstance(v, tuple) and v[0] == 'iter':
                 it = v[1]
+                # loop variable over a list built right in the loop header: evaluated once, before the first iteration
+                if isinstance(it, (ast.ListComp, ast.GeneratorExp)) and n == outer:
+                    pos = _position(v[2], e.id)
+                    ev = _elt_at(it.elt, pos)
+                    if ev is not None and any(isinstance(s, ast.Attribute) and s.attr == 'parent' for s in ast.walk(ev)):
+                        return '`%s` comes from the list in the loop header (line %d), built once before the first ' \
+                               'iteration, that stores `.parent` values' % (e.id, cfg.nodes[n].lineno)
                 # loop variable over a list built before the loop whose elements contain .parent reads
                 if isinstance(it, ast.Name):
                     for (n2, v2) in name_defs(f, it.id):
